@@ -9,6 +9,7 @@ import ast as _ast
 from .common import *   # noqa: F401,F403
 from pyvc.loops import LoopSpec
 from . import cfg, C02
+from pyvc.values import real_val
 
 E = 'propka.energy.'
 D = 'propka.determinants.'
@@ -530,24 +531,43 @@ def task_iterative(pr, repo):
                    And(ok, c[0][1] == -1 * cv, s1[0][1] == -1 * s2[0][1], Or(s1[0][1] == hb, s1[0][1] == -1 * hb)))
     pr.explore(ex, t_base, 'add_iterative_base_pair')
 
-    def t_ion(ex, ctx):
-        o1, o2, hb, cv, inter = setup(ctx)
-        q1, q2 = o1.attrs['q'], o2.attrs['q']
-        ctx.assume(And(Or(q1 == 1, q1 == -1), q2 == -1 * q1))
-        p = record('P', None, exclude_sidechain_interactions=[])
-        version = record('version', None, parameters=p)
-        ex.call_function(repo.func(IT + 'add_iterative_ion_pair'), [o1, o2, inter, version])
-        c1, c2 = o1.attrs['determinants']['coulomb'], o2.attrs['determinants']['coulomb']
-        s1, s2 = o1.attrs['determinants']['sidechain'], o2.attrs['determinants']['sidechain']
-        conj = [len(c1) == len(c2), len(c1) <= 1, len(s1) <= 1, len(s2) <= 1]
-        if len(c1) == 1 and len(c2) == 1:
-            conj.append(And(c1[0][1] == q1 * cv, c2[0][1] == q2 * cv, c1[0][1] == -1 * c2[0][1]))
-        for s, q in ((s1, q1), (s2, q2)):
-            for x in s:
-                conj.append(x[1] == q * hb)
-        ctx.oblige('iterative acid-base pair: Coulomb terms q1*coulomb and q2*coulomb, equal and opposite; side-chain q*hbond',
-                   And(*conj))
-    pr.explore(ex, t_ion, 'add_iterative_ion_pair')
+    import ast as _ast
+    MINV = _ast.literal_eval(repo.module('propka.iterative').assigns['UNK_MIN_VALUE'])
+
+    def make_t_ion(excluded):
+        def t_ion(ex, ctx):
+            o1, o2, hb, cv, inter = setup(ctx)
+            o2.attrs['res_name'] = 'HIS'
+            q1, q2 = o1.attrs['q'], o2.attrs['q']
+            ctx.assume(And(Or(q1 == 1, q1 == -1), q2 == -1 * q1))
+            p = record('P', None, exclude_sidechain_interactions=list(excluded))
+            version = record('version', None, parameters=p)
+            ann0, ann1 = inter[2][0], inter[2][1]
+            # provisional pKa of each partner; the term is added when the acid's lies below the base's
+            comp1 = o1.attrs['pka_old'] + ann0 + q1 * cv + (0 if 'ASP' in excluded else q1 * hb)
+            comp2 = o2.attrs['pka_old'] + ann1 + q2 * cv + (0 if 'HIS' in excluded else q2 * hb)
+            add = Or(And(q1 == -1, comp1 < comp2), And(q1 == 1, comp2 < comp1))
+            ex.call_function(repo.func(IT + 'add_iterative_ion_pair'), [o1, o2, inter, version])
+            c1, c2 = o1.attrs['determinants']['coulomb'], o2.attrs['determinants']['coulomb']
+            s1, s2 = o1.attrs['determinants']['sidechain'], o2.attrs['determinants']['sidechain']
+            conj = [len(c1) == len(c2), len(c1) <= 1, len(s1) <= 1, len(s2) <= 1]
+            if len(c1) == 1 and len(c2) == 1:
+                conj.append(And(c1[0][1] == q1 * cv, c2[0][1] == q2 * cv, c1[0][1] == -1 * c2[0][1]))
+            for s_, q in ((s1, q1), (s2, q2)):
+                for x in s_:
+                    conj.append(x[1] == q * hb)
+            # which terms exist: Coulomb and hydrogen-bond terms are decided independently of each other; the exclusion list only
+            # concerns the side-chain term of the excluded residue
+            big_c, big_h = cv > Sym(real_val(MINV)), hb > Sym(real_val(MINV))
+            conj.append(Sym(to_bool(len(c1) == 1)) == Sym(to_bool(And(add, big_c))))
+            conj.append(Sym(to_bool(len(s1) == 1)) == Sym(to_bool(And(add, big_h) if 'ASP' not in excluded else False)))
+            conj.append(Sym(to_bool(len(s2) == 1)) == Sym(to_bool(And(add, big_h) if 'HIS' not in excluded else False)))
+            ctx.oblige('iterative acid-base pair [excluded from side-chain interactions: %s]: Coulomb terms q1*coulomb and q2*coulomb on '
+                       'BOTH partners (equal and opposite) iff the pair is accepted and coulomb > threshold; side-chain terms q*hbond '
+                       'iff accepted, hbond > threshold and that residue type is not excluded' % (list(excluded) or 'none'), And(*conj))
+        return t_ion
+    for excluded in ((), ('ASP',), ('HIS',)):
+        pr.explore(ex, make_t_ion(excluded), 'add_iterative_ion_pair %s' % (excluded,))
 
 
 def task_exceptions(pr, repo):
